@@ -222,7 +222,11 @@ def watcher_family(V, n, wname_spawn):
 def beyond_reach(V, n, snap, pid, nosig):
     """the daemon cannot terminate worker `pid` the way the properties assume: it may not signal it, or a kill of it failed
     part-way because it may not signal one of its descendants (stop_children / the recursive SIGKILL: AccessDenied)"""
-    return pid in nosig or refused_before(V, n, snap.descendants({pid}))
+    fam = set(snap.descendants({pid}))
+    for x in V[:n + 1]:                   # a descendant that has gone meanwhile was one when its signal was refused
+        if not x.snap.blocked and pid in x.snap.kernel:
+            fam |= x.snap.descendants({pid})
+    return pid in nosig or refused_before(V, n, fam)
 
 
 def res_name(n):
@@ -369,8 +373,10 @@ def c05_no_progress(sc, V):
     for s in V:
         if s.snap.blocked:
             break
+        # … and the timers it waits on are the same as before, relative to the clock: the timer that fired was armed again
+        # as it was and no other timer came closer (a long warmup that is still counting down is progress)
         same = s.kind() == "wake" and not s.lines and s.snap.slot is not None and s.before.slot == s.snap.slot and \
-            s.before.sleepers and s.snap.sleepers and \
+            s.before.sleepers and sorted(s.snap.sleepers) == sorted(s.before.sleepers) and \
             [(w["name"], w["status"], w["np"], w["procs"]) for w in s.before.watchers] == \
             [(w["name"], w["status"], w["np"], w["procs"]) for w in s.snap.watchers] and s.before.kernel == s.snap.kernel
         run = run + 1 if same else 0
@@ -699,6 +705,8 @@ def c03(sc, V):
     owner = {}                # pid -> watcher name
     stop_sent = {}            # pid -> (t, sig, T)
     veto = set(w["name"] for w in sc["watchers"] if "before_signal" in (w.get("hooks") or {}))
+    # … and by the name the workers carry: a watcher that `rm` has taken out of the daemon is still stopping its workers
+    veto |= set(w["name"].replace(" ", "_") for w in sc["watchers"] if "before_signal" in (w.get("hooks") or {}))
     for s in V:
         if s.before.blocked:
             break
@@ -1083,7 +1091,7 @@ def c09(sc, V):
             # worker — is outside C09's quantifier: its `kill` event stands although the worker lives)
             wrongly = [p for p in live if p in kill_ev and a.kernel.get(p, ("g", 0))[0] == "r" and
                        not _sigkilled_before(V, s.n, p) and      # SIGKILLed = dying, whatever the kernel's bookkeeping shows
-                       not refused_before(V, s.n, a.descendants({p}))]
+                       not beyond_reach(V, s.n, a, p, set())]
             if wrongly:
                 f.append({"sig": "kill-event-for-surviving-worker", "step": s.n,
                           "msg": "pids %r were announced killed but are running and listed with nothing in flight" % sorted(wrongly)})
@@ -1351,6 +1359,12 @@ def c01(sc, V):
                         continue
                 except ValueError:
                     continue
+                # "no surplus, nothing to replace": every listed worker alive when the check began, and no spawn failed in it
+                # (a dead worker is replaced; a replacement whose exec fails makes the watcher stop all its workers — exec
+                # failures are outside C01's quantifier)
+                if any(not alive(s.before.kernel.get(q[0], ("g", 0))[0]) for q in wb["procs"]) or \
+                        any(l[0] == "execfail" for l in s.lines):
+                    continue
                 st_times = spawn_times(sc, V[:s.n + 1])
                 for l in s.lines:
                     if l[0] == "sig" and l[2] != 0 and any(p[0] == l[1] for p in wb["procs"]) and l[1] in st_times and \
@@ -1379,7 +1393,7 @@ def c01(sc, V):
                     conv = False
                     continue
                 # a surplus worker the daemon may not signal cannot be removed: outside C01's quantifier
-                if any(p[0] in nosig for p in w["procs"]) or refused_before(V, s.n, a.descendants(set(p[0] for p in w["procs"]))):
+                if any(beyond_reach(V, s.n, a, p[0], nosig) for p in w["procs"]):
                     conv = False
                     continue
                 if len(live) != int(w["np"]) or len(w["procs"]) != int(w["np"]):
